@@ -5,9 +5,9 @@
    stated for that form -- the property for the repaired form, the defect's witness otherwise. *)
 From Coq Require Import List Arith NArith Bool.
 Import ListNotations.
-From NngV Require Import Gen.Consts Core.CloseModel Core.CloseProofs Core.CloseTerm Core.CloseSafe.
+From NngV Require Import Gen.Consts Queue.MsgqModel Core.CloseModel Core.CloseProofs Core.CloseTerm Core.CloseSafe Core.CloseMsgq.
 
-Definition cur_fixes : fixes := mkFixes C10_FX_EPHOLD C10_FX_EPID C10_FX_CTXFINI C10_FX_LATEOP C10_FX_CTXOPEN.
+Definition cur_fixes : fixes := mkFixes C10_FX_EPHOLD C10_FX_EPID C10_FX_CTXFINI C10_FX_LATEOP C10_FX_CTXOPEN C10_FX_CTXMARK.
 
 Theorem c10_consts_match :
   C_EBUSY = C10_EBUSY /\ C_ECLOSED = C10_ECLOSED /\ C_ENOENT = C10_ENOENT /\ C_ENOTSUP = C10_ENOTSUP.
@@ -107,6 +107,48 @@ Theorem double_close_partial :
     exists rv, run_act fx s (AFind USockClose) = Some (s, [ARet USockClose rv R_NA]) /\ rv <> C_OK.
 Proof. exact second_close_fails. Qed.
 Print Assumptions double_close_partial.
+
+(* contexts: sock_shutdown marks EVERY context closed and destroys the idle ones; a context that another
+   thread's call references at that instant (between its nni_ctx_find and its nni_ctx_rele) is destroyed by
+   its last release.  For all interleavings: a context is destroyed iff it has left s_ctxs, a destroyed
+   context has nothing pending, ctx_fini runs only on contexts still on the list (at most once each), and
+   when the destroying close has returned every context has been destroyed (exactly once).  Termination
+   with busy contexts is part of close_terminates_measure.  With C10_FX_CTXMARK = false (only idle
+   contexts marked) the selected statement is the witness: the busy context stays open, valid and on
+   s_ctxs, no step is enabled, nng_socket_close never returns. *)
+Theorem close_contexts_destroyed :
+  if all_fixed cur_fixes then
+    forall ph la fi ls s, run cur_fixes (init ph la fi) ls = Some s ->
+      (forall c x, nth_error (ctxs s) c = Some x ->
+         (c_freed x = true <-> c_onlist x = false) /\ (c_freed x = true -> c_pend x = [])) /\
+      (In (USockClose, C_OK, R_DESTROY) (rets s) -> forall c x, nth_error (ctxs s) c = Some x -> c_freed x = true)
+  else pinned_defect cur_fixes.
+Proof. exact (contexts_sel cur_fixes). Qed.
+Print Assumptions close_contexts_destroyed.
+
+Theorem ctxmark_refuted_witness : forall a b c d e,
+  exists s, run (mkFixes a b c d e false) (init PhFini true true) w_ctxmark = Some s /\
+            (exists r, nth_error (threads s) 2 = Some (AWaitCtxs :: r)) /\
+            bad s = [] /\ no_internal_step (mkFixes a b c d e false) s /\ find_ctx s 0 = None.
+Proof. exact ctxmark_refuted. Qed.
+Print Assumptions ctxmark_refuted_witness.
+
+(* the step of the close model that closes the upper queues of a raw socket assumes that nni_msgq_close
+   completes every waiting reader and writer with NNG_ECLOSED; this is that statement, proved of the msgq
+   model of C18 (whatever capacity, fill and number of waiters) *)
+Theorem msgq_close_completes_all_waiters :
+  forall fixed q rv q' outs, msgq_step fixed q MClose = Some (rv, q', outs) ->
+    mq_getq q' = [] /\ mq_putq q' = [] /\ mq_closed q' = true /\
+    forall a, In a (waiters q) -> In (Done a ECLOSED None) outs.
+Proof. exact msgq_close_completes_waiters. Qed.
+Print Assumptions msgq_close_completes_all_waiters.
+
+Example msgq_close_nonvacuous :
+  match msgq_run true (msgq_init 1) [MAioPut 1%N 11%N true; MAioPut 2%N 12%N true; MAioPut 3%N 13%N true; MClose] with
+  | Some (q, _) => mq_putq q = [] /\ mq_closed q = true
+  | None => False
+  end.
+Proof. vm_compute. auto. Qed.
 
 (* pipes: the strict reading ("after nng_pipe_close returns, further calls fail") is false of the
    code: nng_pipe_close marks the pipe and queues it for the reaper; the id leaves the map in
